@@ -9,7 +9,7 @@ from harness import core
 from harness.core import Outcome
 
 ID = "C03"
-LEAN_TARGETS = ["BeyondVerif.Props.C03", "BeyondVerif.Witness.C03"]
+LEAN_TARGETS = ["BeyondVerif.Props.C03", "BeyondVerif.Props.C03b", "BeyondVerif.Props.C03c", "BeyondVerif.Props.C03d", "BeyondVerif.Props.C03e", "BeyondVerif.Witness.C03"]
 THEOREMS = [
     "BeyondVerif.C03.coef_table",
     "BeyondVerif.C03.offset_defined",
@@ -62,9 +62,43 @@ THEOREMS = [
     "BeyondVerif.C03.range_len_eq_length_iter",
     "BeyondVerif.C03.range_mem_of_iter",
     "BeyondVerif.C03.range_contains_iff",
+    "BeyondVerif.C03.changeScale_decomp",
+    "BeyondVerif.C03.tdb_pattern",
+    "BeyondVerif.C03.changeScale_drift_tdb",
+    "BeyondVerif.C03.changeScale_drift_le_one",
+    "BeyondVerif.C03.changeScale_instant_bound_all",
+    "BeyondVerif.C03.changeScale_observed_us",
+    "BeyondVerif.C03.to_ut1_record",
+    "BeyondVerif.C03.to_ut1_step",
+    "BeyondVerif.C03.to_ut1_same_day",
+    "BeyondVerif.C03.to_ut1_second_reading",
+    "BeyondVerif.C03.to_ut1_safe_zone",
+    "BeyondVerif.C03.from_ut1_keeps_instant",
+    "BeyondVerif.C03.range_iter_terminates",
+    "BeyondVerif.C03.range_fuel_irrelevant",
+    "BeyondVerif.C03.range_iter_total",
+    "BeyondVerif.C03.tdb_lipschitz",
+    "BeyondVerif.C03.tdbTicksR_slow",
+    "BeyondVerif.C03.changeScale_tdb_formula",
+    "BeyondVerif.C03.day_of_double_own",
+    "BeyondVerif.C03.day_of_double_utc",
+    "BeyondVerif.C03.eopGetR_of_day",
+    "BeyondVerif.C03.eopRawR_eq_exact",
+    "BeyondVerif.C03.eopForF_record_of_utc_day",
+    "BeyondVerif.C03.src_normalise",
+    "BeyondVerif.C03.src_toScale",
+    "BeyondVerif.C03.src_add",
+    "BeyondVerif.C03.src_cmp",
+    "BeyondVerif.C03.src_contains",
+    "BeyondVerif.C03.src_cond",
+    "BeyondVerif.C03.src_len",
+    "BeyondVerif.C03.src_range_agree",
     "BeyondVerif.C03W.label_day_keeps_instant",
     "BeyondVerif.C03W.noon_keeps_instant",
     "BeyondVerif.C03W.utc_midnight_band_changes_instant",
+    "BeyondVerif.C03W.band_edge_is_sharp",
+    "BeyondVerif.C03W.three_roundings_exceed_1us",
+    "BeyondVerif.C03W.sub_microsecond_band_differs",
 ]
 LEVEL_TEXT = ("Lean theorems over an exact integer model (ticks of 1e-7 s) of Date / Timescale.offset / EopDb.get / DateRange, instantiated with the scale graph "
               "(execution order), the _scale_*_minus_* method table (AST) and the IERS tables regenerated from /repo on each run: offsets defined, antisymmetric and "
@@ -414,6 +448,7 @@ def check_pair(out, rng, sa, sb, us):
     elif abs(diff) > 1:
         out.fail(family_scale_pair(a, b, sa, sb, diff), "converted date differs from the original instant by more than 1 us", inp,
                  observed=f"{diff} us", expected="<= 1 us")
+    check_internal(out, a, b, sa, sb, inp, diff)
     # back to the same clock reading
     c = b.change_scale(sa)
     back = td_us(c.datetime - a.datetime)
@@ -432,6 +467,53 @@ def check_pair(out, rng, sa, sb, us):
                  expected=f"{exp / TICK} us +- {tol / TICK}")
     if {sa, sb} == {"TDB", "TT"} and abs(off) >= 1700:
         out.fail("tdb-tt-bound", "|TDB-TT| >= 1.7 ms", inp, observed=off)
+
+
+INTERNAL_TOL = 1.5e-6 + 4e-8      # three roundings of half a microsecond + the TDB term over ~70 s (2.4e-8 s) + float noise of `_s`
+
+
+def check_internal(out, a, b, sa, sb, inp, diff):
+    """the internal instant `(_d, _s)` — finer than a microsecond — moves by at most the three `timedelta` roundings of
+    `change_scale` (Props/C03b.lean changeScale_instant_bound_all: 1.6 us; exactly 0 between uniform scales from a whole-microsecond
+    reading).  Only where the whole-microsecond difference is within the property's limit (larger shifts are reported there)"""
+    if abs(diff) > 1:
+        return
+    sh = (b._d - a._d) * 86400.0 + (b._s - a._s)
+    lim = INTERNAL_TOL
+    if abs(sh) > lim:
+        out.fail(f"instant-internal:{'+'.join(sorted({sa, sb} & {'UT1', 'TDB'})) or 'uniform'}", "the internal instant (_d, _s) of the converted date differs from the original by more than the three roundings of change_scale allow",
+                 inp, observed=f"{sh * 1e6:.4f} us", expected=f"<= {lim * 1e6:.3f} us")
+
+
+def check_pair_float(out, rng, sa, sb, day, sec):
+    """the constructor form `Date(d, s)` with a clock reading that is NOT a whole number of microseconds, converted to another
+    scale: same instant within 1 us as `-` measures it (exactly, with ==, hash, between uniform scales), within 1.5 us internally"""
+    from beyond.dates import Date
+    a = Date(day, sec, scale=sa)
+    b = a.change_scale(sb)
+    inp = {"pair_float": [sa, sb], "day": day, "seconds": repr(sec)}
+    out.count(key=("pairf", sa, sb, day, sec), kind="pair-float-seconds", pair=f"{sa}>{sb}")
+    diff = td_us(b - a)
+    uniform = sa in UNIFORM and sb in UNIFORM
+    if uniform:
+        flags = (a == b, hash(a) == hash(b), diff == 0, a <= b, a >= b, not (a < b), not (a > b))
+        if not all(flags):
+            out.fail(family_scale_pair(a, b, sa, sb), "converted date (from a sub-microsecond clock reading) is not the same instant (==, hash, -, <=, >=, <, >)", inp,
+                     observed=[bool(x) for x in flags] + [diff], expected="all True, 0 us")
+            return
+    elif abs(diff) > 1:
+        out.fail(family_scale_pair(a, b, sa, sb, diff), "converted date (from a sub-microsecond clock reading) differs from the original instant by more than 1 us", inp,
+                 observed=f"{diff} us", expected="<= 1 us")
+        return
+    check_internal(out, a, b, sa, sb, inp, diff)
+    # the seconds of day read back are the ones given (to the float noise of `(_s - _offset) % 86400`)
+    if a.d != day or abs(a.s - sec) > 1e-9:
+        out.fail(f"ctor-day-seconds-readback:{sa}", "Date(d, s).d / .s are not the values given", inp, observed=(a.d, a.s), expected=(day, sec))
+
+
+def gen_day_sec(rng, scale):
+    us = gen_label(rng, scale)
+    return us // DAY_US, (us % DAY_US) / 1e6 + rng.choice([rng.uniform(0, 1e-6), rng.choice([0.5e-6, 0.25e-6, 0.49999e-6, 0.50001e-6, 1e-7])])
 
 
 def expected_offset(a, sa, sb):
@@ -1013,6 +1095,12 @@ def oracle(ctx, widened):
                 check_pair(out, rng, sa, sb, gen_label(rng, sa))
     for sa, sb, us in PINNED_EQ + PINNED_EOP + PINNED_BAND:
         check_pair(out, rng, sa, sb, us)
+    for sa in SCALES:
+        for sb in SCALES:
+            for _ in range(60 if not big else 600):
+                day, sec = gen_day_sec(rng, sa)
+                if sec < 86400.0 - 1e-5:
+                    check_pair_float(out, rng, sa, sb, day, sec)
     for scale in SCALES:
         for _ in range(1200 if not big else 12000):
             check_arith(out, rng, scale, gen_label(rng, scale))
@@ -1044,6 +1132,8 @@ def replay(f):
         check_leap_day_date(out, i["leap_day"], i["delta_us"])
     elif "boundary_day" in i:
         check_day_boundary_date(out, i["boundary_day"], i["delta_us"])
+    elif "pair_float" in i:
+        check_pair_float(out, rng, i["pair_float"][0], i["pair_float"][1], i["day"], float(i["seconds"]))
     elif "derived_scale" in i:
         check_derived(out, i["derived_scale"], i["clock_us"], i["t_us"], i["via"])
     elif "to" in i:
@@ -1121,6 +1211,236 @@ def eop_day_scale(tree):
     raise RuntimeError("Date.__init__: the second EOP lookup by UTC day is not there")
 
 
+# ---------------------------------------------------------------- Date / DateRange method bodies -> Generated/DateSrc.lean
+
+class SrcShape(RuntimeError):
+    """a method of Date / DateRange is not of the shape the dedicated translator knows"""
+
+
+def _unparse(n):
+    return ast.unparse(n)
+
+
+class IntTr:
+    """expressions over the integer tick model: names/attributes are looked up in `names` (python source text -> Lean text),
+    86400 / 86400.0 is `D`, `//` and `%` by a positive constant are Lean's `/` and `%` on Int, `int(x // c)` is `x / c`,
+    comparisons (chains too) become `decide`, `and` / `or` / `not` the Bool connectives; anything else raises SrcShape"""
+
+    def __init__(self, names):
+        self.names = names
+
+    def num(self, e):
+        src = _unparse(e)
+        if src in self.names:
+            return self.names[src]
+        if isinstance(e, ast.Constant) and isinstance(e.value, (int, float)) and not isinstance(e.value, bool):
+            if e.value in (86400, 86400.0):
+                return "D"
+            if float(e.value).is_integer():
+                return f"({int(e.value)} : Int)"
+            raise SrcShape(f"constant {e.value!r}")
+        if isinstance(e, ast.BinOp):
+            if isinstance(e.op, (ast.FloorDiv, ast.Mod)) and not (isinstance(e.right, ast.Constant) and e.right.value in (86400, 86400.0)):
+                raise SrcShape("// or % by something else than 86400: " + src)
+            op = {ast.Add: "+", ast.Sub: "-", ast.Mult: "*", ast.FloorDiv: "/", ast.Mod: "%"}.get(type(e.op))
+            if op is None:
+                raise SrcShape("operator in " + src)
+            return f"({self.num(e.left)} {op} {self.num(e.right)})"
+        if isinstance(e, ast.Call) and isinstance(e.func, ast.Name) and e.func.id == "int" and len(e.args) == 1 and not e.keywords \
+                and isinstance(e.args[0], ast.BinOp) and isinstance(e.args[0].op, ast.FloorDiv):
+            return self.num(e.args[0])        # int() of a floor quotient: already whole
+        raise SrcShape("expression " + src)
+
+    def boolean(self, e):
+        src = _unparse(e)
+        if src in self.names:
+            return self.names[src]
+        if isinstance(e, ast.Compare):
+            ops = {ast.Lt: "<", ast.LtE: "≤", ast.Gt: ">", ast.GtE: "≥", ast.Eq: "=", ast.NotEq: "≠"}
+            terms = [e.left] + list(e.comparators)
+            parts = []
+            for a, o, b_ in zip(terms, e.ops, terms[1:]):
+                if type(o) not in ops:
+                    raise SrcShape("comparison in " + src)
+                parts.append(f"decide ({self.num(a)} {ops[type(o)]} {self.num(b_)})")
+            return "(" + " && ".join(parts) + ")"
+        if isinstance(e, ast.BoolOp):
+            return "(" + (" && " if isinstance(e.op, ast.And) else " || ").join(self.boolean(v) for v in e.values) + ")"
+        if isinstance(e, ast.UnaryOp) and isinstance(e.op, ast.Not):
+            return f"(!{self.boolean(e.operand)})"
+        raise SrcShape("condition " + src)
+
+
+def _method(tree, cls, name):
+    node = next(n for n in tree.body if isinstance(n, ast.ClassDef) and n.name == cls)
+    fs = [f for f in node.body if isinstance(f, ast.FunctionDef) and f.name == name]
+    if len(fs) != 1:
+        raise SrcShape(f"{cls}.{name}: {len(fs)} definitions")
+    return fs[0]
+
+
+def _body(f):
+    """statements without the docstring"""
+    return [st for st in f.body if not (isinstance(st, ast.Expr) and isinstance(st.value, ast.Constant) and isinstance(st.value.value, str))]
+
+
+def _ret_tree(stmts, tr):
+    """`if c: return a  [else: return b]  return c` trees -> nested Lean `if`; every leaf a Bool expression"""
+    if not stmts:
+        raise SrcShape("falls off the end")
+    st = stmts[0]
+    if isinstance(st, ast.Return) and len(stmts) == 1:
+        return tr.boolean(st.value)
+    if isinstance(st, ast.If):
+        then = _ret_tree(st.body, tr)
+        other = _ret_tree(st.orelse if st.orelse else stmts[1:], tr)
+        if st.orelse and len(stmts) > 1:
+            raise SrcShape("statements after if/else")
+        return f"(if {tr.boolean(st.test)} then {then} else {other})"
+    raise SrcShape("statement " + _unparse(st))
+
+
+def date_src(tree):
+    """Lean text of Generated/DateSrc.lean: the arithmetic of the Date methods and the three DateRange methods, translated from
+    the AST of beyond/dates/date.py; SrcShape when a method has another shape than the one modelled in Model/Date.lean"""
+    out = []
+    # --- Date.__init__: the last two statements before the __setattr__ block
+    init = _method(tree, "Date", "__init__")
+    stmts = _body(init)
+    k = next((i for i, st in enumerate(stmts) if isinstance(st, ast.Expr) and "__setattr__" in _unparse(st)), None)
+    if k is None or k < 3:
+        raise SrcShape("Date.__init__: no __setattr__ block")
+    sets = [_unparse(st) for st in stmts[k:]]
+    exp_sets = ["super().__setattr__('_d', d)", "super().__setattr__('_s', s)", "super().__setattr__('_offset', offset)",
+                "super().__setattr__('scale', scale)", "super().__setattr__('eop', eop)", "super().__setattr__('_cache', {})"]
+    if sets != exp_sets:
+        raise SrcShape("Date.__init__: slots are not set from (d, s, offset, scale, eop) in that order: " + "; ".join(sets))
+    off_st, d_st, s_st = stmts[k - 3], stmts[k - 2], stmts[k - 1]
+    if _unparse(off_st) != "offset = scale.offset(mjd, self.REF_SCALE, eop)":
+        raise SrcShape("Date.__init__: offset statement: " + _unparse(off_st))
+    tr = IntTr({"d": "d", "s": "s", "offset": "offset"})
+    if not (isinstance(d_st, ast.AugAssign) and isinstance(d_st.op, ast.Add) and _unparse(d_st.target) == "d"
+            and isinstance(s_st, ast.Assign) and _unparse(s_st.targets[0]) == "s"):
+        raise SrcShape("Date.__init__: normalisation statements: " + _unparse(d_st) + "; " + _unparse(s_st))
+    out += ["/-- `Date.__init__`: `" + _unparse(d_st) + "; " + _unparse(s_st) + "` -/",
+            "def normaliseSrc (d s offset : Int) : Int × Int :=",
+            f"  let d' : Int := d + {tr.num(d_st.value)}",
+            f"  let s' : Int := {tr.num(s_st.value)}",
+            "  (d', s')"]
+    mjd_sts = [st for st in stmts[:k] if isinstance(st, ast.Assign) and _unparse(st.targets[0]) == "mjd"]
+    if [_unparse(st) for st in mjd_sts] != ["mjd = d + s / 86400.0"]:
+        raise SrcShape("Date.__init__: mjd")
+    # --- _convert_to_scale
+    f = _body(_method(tree, "Date", "_convert_to_scale"))
+    if [type(st) for st in f] != [ast.Assign, ast.Assign, ast.AugAssign, ast.Return] or _unparse(f[0]) != "d = self._d" \
+            or _unparse(f[1].targets[0]) != "s" or _unparse(f[2].target) != "d" or not isinstance(f[2].op, ast.Sub) or _unparse(f[3]) != "return (d, s)":
+        raise SrcShape("Date._convert_to_scale: " + "; ".join(_unparse(st) for st in f))
+    tr1 = IntTr({"self._s": "x.s", "self._offset": "x.off", "self._d": "x.d"})
+    tr2 = IntTr({"self._s": "x.s", "self._offset": "x.off", "self._d": "x.d", "s": "s'", "d": "x.d"})
+    out += ["/-- `Date._convert_to_scale` -/", "def toScaleSrc (x : Date) : Int × Int :=",
+            f"  let s' : Int := {tr1.num(f[1].value)}",
+            f"  let d' : Int := x.d - {tr2.num(f[2].value)}",
+            "  (d', s')"]
+    for prop, exp in (("d", "return self._convert_to_scale()[0]"), ("s", "return self._convert_to_scale()[1]"),
+                      ("_mjd", "return self._d + self._s / 86400.0"), ("mjd", "return self.d + self.s / 86400.0")):
+        got = "; ".join(_unparse(st) for st in _body(_method(tree, "Date", prop)))
+        if got != exp:
+            raise SrcShape(f"Date.{prop}: {got}")
+    # --- __add__
+    f = _body(_method(tree, "Date", "__add__"))
+    if len(f) != 2 or not isinstance(f[0], ast.If) or not isinstance(f[1], ast.Return):
+        raise SrcShape("Date.__add__: not `if isinstance(...): divmod / else: raise` followed by ONE return")
+    if _unparse(f[0].test) != "isinstance(other, timedelta)" or len(f[0].body) != 1 or not (len(f[0].orelse) == 1 and isinstance(f[0].orelse[0], ast.Raise)):
+        raise SrcShape("Date.__add__: guard")
+    dm = f[0].body[0]
+    if not (isinstance(dm, ast.Assign) and _unparse(dm.targets[0]) == "(days, sec)" and isinstance(dm.value, ast.Call)
+            and _unparse(dm.value.func) == "divmod" and len(dm.value.args) == 2 and _unparse(dm.value.args[1]) in ("86400", "86400.0")):
+        raise SrcShape("Date.__add__: " + _unparse(dm))
+    ret = f[1].value
+    if not (isinstance(ret, ast.Call) and _unparse(ret.func) == "self.__class__" and len(ret.args) == 2 and _unparse(ret.args[1]) == "sec"
+            and [(kw.arg, _unparse(kw.value)) for kw in ret.keywords] == [("scale", "self.scale")]):
+        raise SrcShape("Date.__add__: result is not `self.__class__(<day>, sec, scale=self.scale)`: " + _unparse(ret))
+    tr = IntTr({"other.total_seconds()": "t", "self.s": "selfS", "self.d": "selfD"})
+    tot = tr.num(dm.value.args[0])
+    tr = IntTr({"self.d": "selfD", "int(days)": f"({tot} / D)", "days": f"({tot} / D)"})
+    out += ["/-- `Date.__add__`: the `(d, s)` handed to the constructor; `t` = `other.total_seconds()` in ticks, `selfD`, `selfS` = `self.d`, `self.s` -/",
+            "def addSplitSrc (selfD selfS t : Int) : Int × Int :=", f"  ({tr.num(ret.args[0])}, {tot} % D)"]
+    # --- __sub__: negation of the timedelta then __add__; Date - Date on _datetime
+    f = _body(_method(tree, "Date", "__sub__"))
+    got = "; ".join(_unparse(st) for st in f)
+    exp = ("if isinstance(other, timedelta):\n    other = timedelta(seconds=-other.total_seconds())\nelif isinstance(other, datetime):\n    return self.datetime - other\n"
+           "elif isinstance(other, Date):\n    return self._datetime - other._datetime\nelse:\n    raise TypeError(f'Unknown operation with {type(other)}'); return self.__add__(other)")
+    if got != exp:
+        raise SrcShape("Date.__sub__: " + got)
+    # --- change_scale
+    got = [_unparse(st) for st in _body(_method(tree, "Date", "change_scale"))]
+    if got != ["offset = self.scale.offset(self._mjd, new_scale, self.eop)", "result = self.datetime + timedelta(seconds=offset)",
+               "return self.__class__(result, scale=new_scale)"]:
+        raise SrcShape("Date.change_scale: " + "; ".join(got))
+    # --- datetime / _datetime (through the cache dictionary)
+    for prop, key, exp in (("datetime", "dt_scale", "self._datetime - timedelta(seconds=self._offset)"),
+                           ("_datetime", "dt", "self.MJD_T0 + timedelta(days=self._d, seconds=self._s)")):
+        f = _body(_method(tree, "Date", prop))
+        got = "; ".join(_unparse(st) for st in f)
+        if got != f"if '{key}' not in self._cache.keys():\n    self._cache['{key}'] = {exp}; return self._cache['{key}']":
+            raise SrcShape(f"Date.{prop}: {got}")
+    # --- comparisons and hash: all on `_datetime`
+    ops = {"__gt__": ">", "__ge__": "≥", "__lt__": "<", "__le__": "≤", "__eq__": "="}
+    pyop = {"__gt__": ">", "__ge__": ">=", "__lt__": "<", "__le__": "<=", "__eq__": "=="}
+    for name, op in ops.items():
+        got = "; ".join(_unparse(st) for st in _body(_method(tree, "Date", name)))
+        if got != f"return self._datetime {pyop[name]} other._datetime":
+            raise SrcShape(f"Date.{name}: {got}")
+        out += [f"/-- `Date.{name}` -/", f"def {name.strip('_')}Src (x y : Date) : Bool := decide (x.datetimeRef {op} y.datetimeRef)"]
+    got = "; ".join(_unparse(st) for st in _body(_method(tree, "Date", "__hash__")))
+    if got != "return hash(self._datetime)":
+        raise SrcShape("Date.__hash__: " + got)
+    out += ["/-- `Date.__hash__` hashes -/", "def hashKeySrc (x : Date) : Int := x.datetimeRef"]
+    cls = next(n for n in tree.body if isinstance(n, ast.ClassDef) and n.name == "Date")
+    if any(isinstance(f, ast.FunctionDef) and f.name == "__ne__" for f in cls.body):
+        raise SrcShape("Date.__ne__ defined")
+    # --- DateRange
+    rnames = {"self.step.total_seconds()": "r.step", "self.inclusive": "(r.incl == true)", "self.start": "r.start", "self.stop": "r.stop", "date": "date",
+              "0": "(0 : Int)"}
+    out += ["/-- `DateRange.__contains__` -/", "def containsSrc (r : Range) (date : Int) : Bool :=",
+            "  " + _ret_tree(_body(_method(tree, "DateRange", "__contains__")), IntTr(rnames))]
+    f = _body(_method(tree, "DateRange", "__iter__"))
+    if len(f) != 3 or _unparse(f[0]) != "date = self.start" or not isinstance(f[1], ast.If) or not isinstance(f[2], ast.While):
+        raise SrcShape("DateRange.__iter__: " + "; ".join(_unparse(st) for st in f))
+    if _unparse(f[2].test) != "getattr(date, oper)(self.stop)" or [_unparse(st) for st in f[2].body] != ["yield date", "date += self.step"] or f[2].orelse:
+        raise SrcShape("DateRange.__iter__: loop: " + _unparse(f[2]))
+    sel = f[1]
+    if len(sel.body) != 1 or len(sel.orelse) != 1:
+        raise SrcShape("DateRange.__iter__: operator selection")
+
+    def oper(st):
+        if not (isinstance(st, ast.Assign) and _unparse(st.targets[0]) == "oper" and isinstance(st.value, ast.IfExp)
+                and isinstance(st.value.body, ast.Constant) and isinstance(st.value.orelse, ast.Constant)):
+            raise SrcShape("DateRange.__iter__: " + _unparse(st))
+        a, b_ = (f"decide (date {ops[c.value]} r.stop)" for c in (st.value.body, st.value.orelse))
+        return f"(if {IntTr(rnames).boolean(st.value.test)} then {a} else {b_})"
+    out += ["/-- the loop condition of `DateRange.__iter__`: `getattr(date, oper)(self.stop)` -/", "def condSrc (r : Range) (date : Int) : Bool :=",
+            f"  if {IntTr(rnames).boolean(sel.test)} then {oper(sel.body[0])} else {oper(sel.orelse[0])}"]
+    f = _body(_method(tree, "DateRange", "__len__"))
+    got = "; ".join(_unparse(st) for st in f)
+    if got != "if self.inclusive and self.dur % self.step == timedelta(0):\n    plus = 1\nelse:\n    plus = 0; return int(ceil(self.dur / self.step)) + plus":
+        raise SrcShape("DateRange.__len__: " + got)
+    if "; ".join(_unparse(st) for st in _body(_method(tree, "DateRange", "dur"))) != "return self.stop - self.start":
+        raise SrcShape("DateRange.dur")
+    out += ["/-- `DateRange.__len__` (`dur = stop - start`; `ceil` of the quotient of two timedeltas) -/", "def lenSrc (r : Range) : Int :=",
+            "  ceilDiv (r.stop - r.start) r.step + (if r.incl ∧ (r.stop - r.start) % r.step = 0 then 1 else 0)"]
+    f = _body(_method(tree, "DateRange", "__init__"))
+    got = [_unparse(st) for st in f]
+    exp = ["if isinstance(stop, timedelta):\n    stop = start + stop", "if not step:\n    raise ValueError('Null step')",
+           "if self._sign(stop - start) != self._sign(step):\n    raise ValueError('start/stop order not coherent with step')",
+           "self.start = start", "self.stop = stop", "self.step = step", "self.inclusive = inclusive"]
+    if [g for g in got if not g.startswith("'")] != exp:
+        raise SrcShape("DateRange.__init__: " + "; ".join(got))
+    if "; ".join(_unparse(st) for st in _body(_method(tree, "DateRange", "_sign"))) != "return (-1, 1)[x.total_seconds() >= 0]":
+        raise SrcShape("DateRange._sign")
+    return out
+
+
 def _lean_str(line):
     if any(ord(c) < 32 or ord(c) > 126 or c in "'\\" for c in line):
         raise RuntimeError("unexpected character in an IERS file line")
@@ -1149,6 +1469,11 @@ def extract(ctx):
            "end BeyondVerif.Generated", ""]
     if core.write_if_changed(os.path.join(core.LEAN, "BeyondVerif", "Generated", "Scales.lean"), "\n".join(txt)):
         ch.append("Generated/Scales.lean")
+    # the arithmetic of the Date methods and the DateRange methods, translated from the AST
+    txt = ["/- GENERATED by harness/props/C03.py (date_src) from beyond/dates/date.py — do not edit. -/",
+           "import BeyondVerif.Model.Date", "namespace BeyondVerif.Generated.DateSrc", "open BeyondVerif.Date"] + date_src(tree) + ["end BeyondVerif.Generated.DateSrc", ""]
+    if core.write_if_changed(os.path.join(core.LEAN, "BeyondVerif", "Generated", "DateSrc.lean"), "\n".join(txt)):
+        ch.append("Generated/DateSrc.lean")
     # the TDB-TT formula, translated from the AST
     consts = {"Date.JD_MJD": f"({dconst['JD_MJD']!r} : R)", "Date.J2000": f"({dconst['J2000']!r} : R)", "cls.J2000": f"({dconst['J2000']!r} : R)"}
     funcs = {"Date._julian_century": "julianCentury"}
@@ -1397,6 +1722,97 @@ def readers_correspondence(ctx, out):
                          observed=str(real)[:300], expected=str(model)[:300])
 
 
+def exact_minus_utc_ticks(scale, day):
+    """own clock minus UTC clock in ticks for a UTC day, from the independent tables (None for TDB)"""
+    tai = leap_at(day)
+    if tai is None:
+        return None
+    return {"UTC": 0, "TAI": tai, "TT": tai + 321840000, "GPS": tai - 190000000, "UT1": tables()[1].get(day)}.get(scale)
+
+
+def dbl_correspondence(ctx, out):
+    """which EOP record the constructor picks, decided by doubles: the real `Date(d, s)`, `Date(mjd)`, `Date(datetime)` against
+    Model/DateDbl.lean (the same computation in exact binary64 arithmetic) — exactly, on the set where the exact-day model of
+    Model/Date.lean and the code can differ: own clock readings whose UTC reading is within 2 us of UTC midnight, on a 0.1-us
+    grid, +- a few ulps of the double at midnight itself, and anywhere else in the day as control.  Every scale but TDB (its term
+    goes through numpy.sin)."""
+    from beyond.dates import Date
+    rng = ctx.rng
+    _, ut1, first, last = tables()
+    lds = [d for d in leap_days() if first + 3 <= d <= last - 3]
+    days = lds[-4:] + [rng.choice(lds)] + [rng.randint(first + 3, last - 3) for _ in range(ctx.n(25, 250))]
+    cases = []      # (line, thunk, kind, position)
+    for day in days:
+        for sc in ("UTC", "TAI", "TT", "GPS", "UT1"):
+            off = exact_minus_utc_ticks(sc, day)
+            if off is None:
+                continue
+            # own clock reading (ticks since own midnight of `day`) of 00:00:00 UTC of `day`
+            deltas = [k for k in range(-20, 21, 1)] if rng.random() < 0.35 else sorted({0, 1, -1, rng.randint(-20, 20), rng.randint(-8, 8), rng.randint(-8, 8)})
+            for dl in deltas:
+                t = off + dl                     # ticks after own midnight of `day`
+                d, tt = day + t // DAY_T, t % DAY_T
+                sf = tt / 1e7
+                pos = "utc-midnight" if dl == 0 else "within-0.7us" if abs(dl) < 7 else "within-2us"
+                cases.append((d, sf, sc, "day-seconds", pos))
+                if dl == 0:
+                    for n in (-2, -1, 1, 2):     # neighbouring doubles of the reading at UTC midnight
+                        x = sf
+                        for _ in range(abs(n)):
+                            x = math.nextafter(x, math.inf if n > 0 else -math.inf)
+                        cases.append((d, x, sc, "day-seconds", "utc-midnight-ulps"))
+                    if sc == "UTC":
+                        cases.append((d, -1e-7, sc, "day-seconds", "negative-seconds"))
+                        cases.append((d - 1, 86400.0, sc, "day-seconds", "seconds-86400"))
+                if rng.random() < 0.25:
+                    mjd = d + sf / 86400.0
+                    dd = int(mjd)
+                    cases.append((dd, (mjd - dd) * 86400, sc, "mjd-float", pos))
+            cases.append((day, rng.uniform(100.0, 86300.0), sc, "day-seconds", "mid-day"))
+            # Date(datetime): whole microseconds around the same place
+            for dl_us in (-2, -1, 0, 1, 2):
+                us = day * DAY_US + off // TICK + dl_us
+                cases.append((us, None, sc, "datetime", "utc-midnight" if dl_us == 0 and off % TICK == 0 else "within-2us"))
+    lines = []
+    for a, sf, sc, form, pos in cases:
+        if form == "datetime":
+            lines.append(f"d3dbldt error {sc} {a}")
+        else:
+            n, dn = sf.as_integer_ratio()
+            lines.append(f"d3dbl error {sc} {a} {n} {dn}")
+    model = core.Driver(ID).run(lines)
+    # the exact-day model (integer ticks) on the same inputs where the seconds are a whole number of ticks: it may differ from
+    # the binary64 model only when the UTC reading is less than 0.7 us from midnight (Props/C03d.lean day_of_double)
+    tick_cases = [(i, c) for i, c in enumerate(cases) if c[3] == "day-seconds" and c[1] >= 0 and abs(c[1] * 1e7 - round(c[1] * 1e7)) < 1e-4]
+    exact = core.Driver(ID).run([f"d3mk error {c[2]} {c[0]} {round(c[1] * 1e7)}" for _, c in tick_cases])
+    for (i, c), e in zip(tick_cases, exact):
+        m = model[i]
+        same = (e.split()[5:7] == m.split()[1:3]) if (e.startswith("ok") and m.startswith("ok")) else (e.startswith("err") == (m == "raised"))
+        out.count(key=("dbl-vs-exact", lines[i]), kind="double-day-vs-exact-day", position=c[4], agree=same)
+        if not same and c[4] not in ("utc-midnight", "within-0.7us", "utc-midnight-ulps"):
+            out.fail(f"double-day-vs-exact:{c[4]}", "the binary64 model and the exact-day model pick different records 0.7 us or more away from UTC midnight", lines[i], observed=m, expected=e)
+    set_policy("error")
+    try:
+        for (a, sf, sc, form, pos), line, m in zip(cases, lines, model):
+            try:
+                if form == "datetime":
+                    x = mkdate(a, sc)
+                elif form == "mjd-float":
+                    x = Date(a + sf / 86400.0, scale=sc) if int(a + sf / 86400.0) == a and (a + sf / 86400.0 - a) * 86400 == sf else Date(a, sf, scale=sc)
+                else:
+                    x = Date(a, sf, scale=sc)
+                real = "ok %d %d" % (round(x.eop.tai_utc * 1e7), round(x.eop.ut1_utc * 1e7))
+            except Exception:  # noqa: BLE001
+                real = "raised"
+            mm = " ".join(m.split()[:3]) if m.startswith("ok") else m
+            branch = "-" if not m.startswith("ok") else ("utc" if m.split()[4] == "-" else "second-lookup" if m.split()[4] != m.split()[3] else "same-day")
+            out.count(key=line, kind="double-day", scale=sc, form=form, position=pos, branch=branch)
+            if real != mm:
+                out.fail(f"double-day:{form}:{pos}", "the EOP record picked by the constructor (day number from a double) differs from the exact binary64 model", line, observed=real, expected=m)
+    finally:
+        set_policy("pass")
+
+
 def correspondence(ctx):
     setup()
     from beyond.dates import Date, timedelta
@@ -1636,6 +2052,7 @@ def correspondence(ctx):
         log.setLevel(old_level)
 
     readers_correspondence(ctx, out)
+    dbl_correspondence(ctx, out)
 
     # DateRange vs the model on instants
     rng_cases = []
